@@ -33,7 +33,7 @@ impl Prop for C10 {
             crate::anycase::AnyVal::Bits(_, m) => m.n() > 1 && !m.ones.is_empty() && !m.zeros.is_empty(),
             crate::anycase::AnyVal::Quad(_, m) => m.n() > 1 && (0..4).filter(|&s| m.occs(s) > 0).count() >= 2,
         };
-        v.check(c.plan_seed(), AnyOpts { unchecked: true, budget: if ctx.thorough { 60 } else { 40 }, iterators: false }, ctx)
+        v.check(c.plan_seed(), AnyOpts::new(true, if ctx.thorough { 60 } else { 40 }, false), ctx)
     }
 }
 
@@ -91,7 +91,7 @@ impl Prop for C11 {
         };
         ensure!(bytes2 == bytes, "{who}: serialize(deserialize(bytes)) differs from bytes ({} vs {} bytes)", bytes2.len(), bytes.len());
         ensure!(w.space_usage_byte() == v.space_usage_byte(), "{who}: space_usage_byte differs after the round trip: {} vs {}", w.space_usage_byte(), v.space_usage_byte());
-        let o = AnyOpts { unchecked: false, budget: if ctx.thorough { 50 } else { 30 }, iterators: true };
+        let o = AnyOpts::new(false, if ctx.thorough { 50 } else { 30 }, true);
         let mut c1 = Ctx { build: ctx.build.clone(), ..Ctx::default() };
         v.check(c.plan_seed(), o, &mut c1)?;
         let mut c2 = Ctx { build: ctx.build.clone(), ..Ctx::default() };
